@@ -118,11 +118,21 @@ class Tr:
                 return self.ex(e.operand, env)
             raise Unsupported("unary operator")
         if isinstance(e, ast.BinOp):
+            if isinstance(e.op, ast.Pow) and isinstance(e.right, ast.Name) and e.right.id in self.bools:
+                # base ** flag with a boolean flag: base if the flag is set, 1 otherwise
+                return "(if %s then %s else 1)" % (e.right.id, self.ex(e.left, env))
+            if isinstance(e.op, ast.Pow) and "cbrt" in self.calls and ast.unparse(e.right) in ("1 / 3.0", "1.0 / 3", "1.0 / 3.0", "1 / 3"):
+                # x ** (1/3.): the cube root, the caller's oracle
+                return "(%s %s)" % (self.calls["cbrt"][0], self.ex(e.left, env))
             if isinstance(e.op, ast.Pow):
                 if isinstance(e.right, ast.Constant) and isinstance(e.right.value, int) and 1 <= e.right.value <= 6:
                     b = self.ex(e.left, env)
                     return "(" + " * ".join([b] * e.right.value) + ")"
                 raise Unsupported("power with a non-small-integer exponent")
+            if isinstance(e.op, ast.Mod) and "fmod" in self.calls and isinstance(e.right, ast.Constant) \
+                    and isinstance(e.right.value, (int, float)) and not isinstance(e.right.value, bool) and e.right.value > 0:
+                # python's float % with a positive literal modulus: x - m * floor(x / m), the floor being the caller's oracle
+                return "(%s %s %s)" % (self.calls["fmod"][0], self.ex(e.left, env), self.ex(e.right, env))
             if isinstance(e.op, ast.Mod):
                 r = self.ex(e.right, env)
                 if r.replace(" ", "") not in ("((2)*PI)", "(2*PI)"):
@@ -433,3 +443,35 @@ def translate_call_arg(repo, relpath, qualname, name, func, argno, opaque_exprs)
     body = tr.ex(calls[0].args[argno], frozenset())
     sig = " ".join("(%s : R)" % v for v in tr.opaque_exprs.values())
     return "Definition %s %s : R :=\n  %s.\n" % (name, sig, body)
+
+
+def translate_segment(repo, relpath, qualname, name, first, last, outputs, inputs=(), extra_sig="", **kw):
+    """The contiguous run of top-level statements of [qualname] from the FIRST assignment to the name [first] up to and
+    including the LAST assignment (plain or augmented, possibly inside a top-level if) to the name [last], read as a function
+    from [inputs] (real parameters, plus the opaque sub-expressions in kw['opaque_exprs']) to the tuple of [outputs]."""
+    with open(os.path.join(repo, relpath)) as f:
+        tree = ast.parse(f.read())
+    fn = find_function(tree, qualname)
+
+    def assigns(st, nm):
+        for n in ast.walk(st):
+            if isinstance(n, ast.Assign) and any(isinstance(t, ast.Name) and t.id == nm for t in n.targets):
+                return True
+            if isinstance(n, ast.AugAssign) and isinstance(n.target, ast.Name) and n.target.id == nm:
+                return True
+        return False
+    idx_first = [i for i, st in enumerate(fn.body) if isinstance(st, ast.Assign) and assigns(st, first)]
+    idx_last = [i for i, st in enumerate(fn.body) if assigns(st, last)]
+    if not idx_first or not idx_last or idx_last[-1] < idx_first[0]:
+        raise Unsupported("segment %s..%s not found in %s" % (first, last, qualname))
+    seg = fn.body[idx_first[0]:idx_last[-1] + 1]
+    bools = kw.pop("bool_inputs", ())
+    tr = Tr(bools=bools, **kw)
+    ret = ast.Return(value=ast.Tuple(elts=[ast.Name(id=o, ctx=ast.Load()) for o in outputs], ctx=ast.Load()))
+    body = tr.block(list(seg) + [ret], frozenset(inputs), set())
+    # the tuple is returned as a Gallina tuple, not a list
+    if body.rstrip().endswith("]"):
+        k = body.rindex("[")
+        body = body[:k] + "(" + body[k + 1:].rstrip()[:-1].replace(";", ",") + ")"
+    sig = " ".join(["(%s : bool)" % b for b in bools] + ["(%s : R)" % i for i in inputs] + ["(%s : R)" % v for v in tr.opaque_exprs.values()])
+    return "Definition %s %s %s : %s :=\n  %s.\n" % (name, extra_sig, sig, " * ".join(["R"] * len(outputs)), body)
